@@ -6,7 +6,7 @@ impl vstd::std_specs::ops::AddSpecImpl<U256> for U256 {
     open spec fn add_req(self, rhs: U256) -> bool { true }
     open spec fn add_spec(self, rhs: U256) -> U256 { arbitrary() }
 }
-impl core::ops::Add<U256> for U256 {
+impl ::core::ops::Add<U256> for U256 {
     type Output = U256;
     #[verifier::external_body]
     fn add(self, rhs: U256) -> (r: U256) ensures uval(&r) == uval(&self) + uval(&rhs) { unimplemented!() }
